@@ -39,6 +39,17 @@ func theInfo(g *fixture.Geo) []byte {
 	return g.Info()
 }
 
+// sizeVotes: the metadata_size values of class "ext0 metadata_size-*" sent so far in the current history.  The
+// buffer for a voted size is allocated when that size becomes the most voted one, which may be at a later
+// message (another vote, a departure); an allocation that is such a buffer is reported under the class of the
+// vote that asked for it, whatever message happened to tip the count.
+type sizeVote struct {
+	size int64
+	cls  string
+}
+
+var sizeVotes []sizeVote
+
 const allocMul = 256
 const allocC0 = 1 << 20
 
@@ -296,6 +307,7 @@ func hostile(rng *rand.Rand, g *fixture.Geo, r *swarm.Remote) hmsg {
 			ms := int64(v)
 			e.MetadataSize = &ms
 			cls += " metadata_size-" + c
+			sizeVotes = append(sizeVotes, sizeVote{ms, c})
 		case 1:
 			v := int64([]int64{0, 1, 2, 250, 1 << 31, 1<<32 - 1}[rng.IntN(6)])
 			e.ReqQ = &v
@@ -433,6 +445,7 @@ func hostile(rng *rand.Rand, g *fixture.Geo, r *swarm.Remote) hmsg {
 }
 
 func history(t *testing.T, c *vk.C, rng *rand.Rand, i int) map[string]int {
+	sizeVotes = nil
 	st := map[string]int{}
 	swarm.Run(t, c, "C05", func(sw *swarm.Swarm) {
 		magnet := i%3 == 2
@@ -569,7 +582,21 @@ func history(t *testing.T, c *vk.C, rng *rand.Rand, i int) map[string]int {
 			st["messages"]++
 			st["cls:"+hm.cls]++
 			if alloc > bound {
-				sw.Viol("C05", "alloc-bound", "alloc-bound "+hm.cls+" meta-"+meta, fmt.Sprintf("%d bytes allocated while handling one %d-byte message (%s); bound %d", alloc, len(hm.frame), hm.cls, bound))
+				cls, why := hm.cls, ""
+				if meta == "unknown" {
+					var best *sizeVote
+					for k := range sizeVotes {
+						v := &sizeVotes[k]
+						if v.size <= alloc && alloc-v.size <= bound && (best == nil || v.size > best.size) {
+							best = v
+						}
+					}
+					if best != nil && cls != "ext0 metadata_size-"+best.cls {
+						why = fmt.Sprintf("; the allocation is the metadata buffer for the size %d voted earlier in this history by an extended handshake (class metadata_size-%s), which this message made the most voted one", best.size, best.cls)
+						cls = "ext0 metadata_size-" + best.cls
+					}
+				}
+				sw.Viol("C05", "alloc-bound", "alloc-bound "+cls+" meta-"+meta, fmt.Sprintf("%d bytes allocated while handling one %d-byte message (%s); bound %d%s", alloc, len(hm.frame), hm.cls, bound, why))
 			}
 			// blast radius
 			if can.Closed() {
